@@ -250,6 +250,7 @@ func runC10(c *Check) {
 	}
 
 	c.optionStore()
+	c.perRequestState("C10-R4")
 }
 
 func isNewCopy(v ssa.Value) bool {
